@@ -52,7 +52,8 @@ MType(m) == CASE m \in {"ha", "hb"} -> HISTOSYS [] m \in {"na", "nt"} -> NORMSYS
 (* distinguishable data: every (channel, sample, bin) cell and every         *)
 (* modifier datum is a different small number; thirds/fifths are the         *)
 (* deliberate non-dyadic stratum                                             *)
-Nom(c, s, b)   == R(6 + 20 * (c - 1) + 7 * (s - 1) + 2 * (b - 1))
+\* one cell has a ZERO nominal yield (with non-zero uncertainties declared on it): an empty bin of one sample
+Nom(c, s, b)   == IF c = 1 /\ s = 2 /\ b = 2 THEN RZero ELSE R(6 + 20 * (c - 1) + 7 * (s - 1) + 2 * (b - 1))
 HiOf(m, c, s, b) == IF m = "ha" THEN RAdd(Nom(c, s, b), R(2 + b)) ELSE RAdd(Nom(c, s, b), RN(3 * c + s, 2))
 LoOf(m, c, s, b) == IF m = "ha" THEN RSub(Nom(c, s, b), R(1 + s)) ELSE RSub(Nom(c, s, b), RN(9 + b, 4))
 NHi(m, c, s)   == IF m = "na" THEN RN(4 + c, 4) ELSE RN(6 + s, 5)
